@@ -10,6 +10,12 @@ Oracles (the property itself on the implementation's exact results): isothermal 
 source-free result inside the range of exchanged temperatures, adding sensible heat never lowers
 the node (paired runs), boundary-layer temperature = mean of its along-wind cells; and the same
 range / mean statements with a 1e-9 relative tolerance on every call of real float simulations.
+
+The hypotheses of those theorems on the exchange weights (`uExch >= 0`, `aeroCond >= 0`, densities,
+areas, rural wind profile >= 0, night loop count = number of cells) are proved for the values the
+code itself produces in `Props/C15Inputs.lean`; the ties and oracles for that code (`urbflux`,
+`Element.SurfFlux`, `UCMDef.__init__`, `UBLDef.__init__`, the wind profile of `RSMDef.vdm`) live
+in `props/c15_inputs.py` and are run from here.
 """
 import sys
 import types
@@ -19,6 +25,7 @@ import core
 import fracexec
 from fracexec import frac_str, frac_list
 from props import c14
+from props import c15_inputs
 
 MODULE = 'UwgVerif.Props.C15'
 THEOREMS = [
@@ -600,7 +607,11 @@ def replay(chk, path):
     v = json.load(open(path))
     what = v['theorem_or_tie']
     pkg = fracexec.load()
-    if 'UCModel' in what:
+    msg_in = c15_inputs.replay(what, v['case'], pkg) if (
+        isinstance(v.get('case'), dict) and v.get('kind') == 'impl-violation') else False
+    if msg_in is not False:
+        msg = msg_in
+    elif 'UCModel' in what:
         c = unjson(v['case'])
         r = impl_ucm(pkg, c)
         msg = ucm_oracle(c, r)
@@ -626,9 +637,9 @@ def replay(chk, path):
 
 
 def run(chk):
-    chk.proof(MODULE, THEOREMS)
+    chk.proof(MODULE, THEOREMS + c15_inputs.THEOREMS, extra_modules=[c15_inputs.MODULE])
     if chk.tier == 'thorough':
-        chk.leanchecker([MODULE])
+        chk.leanchecker([MODULE, c15_inputs.MODULE])
     pkg = fracexec.load()
     rng = chk.rng
     quick = chk.tier == 'quick'
@@ -777,6 +788,9 @@ def run(chk):
         'holds for every integer charLength from 1 to %s m (first failure: %s -> IndexError, '
         'fail-stop)' % ((badL[0] - 1) if badL else upto, badL[0] if badL else 'none up to %d' % upto))
 
+    # ---------------------------------------------------------------- where the weights come from
+    c15_inputs.run_inputs(chk, pkg, quick)
+
     # ---------------------------------------------------------------- live float simulations
     live = {}
     live_bad = []
@@ -799,8 +813,12 @@ def run(chk):
         else:
             sink('indoor', label, 'hvac-acts', None)
     runs = c14.LIVE_RUNS + (c14.LIVE_RUNS_THOROUGH if not quick else [])
-    done = c14.live_runs(chk, runs, 1 if quick else 3, on_bem=on_bem,
-                         extra_wrappers=live_wrappers(sink))
+    inst_nodes, inst_inputs = live_wrappers(sink), c15_inputs.live_install(sink)
+
+    def install_all(uwg_pkg, label):
+        undo = [inst_nodes(uwg_pkg, label), inst_inputs(uwg_pkg, label)]
+        return lambda: [u() for u in undo]
+    done = c14.live_runs(chk, runs, 1 if quick else 3, on_bem=on_bem, extra_wrappers=install_all)
     if done is None:
         chk.notes.append('live float runs skipped: no tests/epw + tests/parameters found')
     else:
@@ -809,14 +827,22 @@ def run(chk):
                           case={'run': label}, observed=msg,
                           expected='range / mean statements within 1e-9 relative')
         ntot = sum(live.values())
+        chk.measurements['urban_wind_profile_growth'] = {
+            'what': 'urbflux APPENDS nzref levels to UCM.windProf at every call and nothing resets '
+                    'or reads the list: its length after the live runs',
+            'runs': dict(c15_inputs.LIVE_STATS)}
         if not getattr(chk, 'live_aborted', None) and (
-                not any(':canyon:' in k for k in live) or not any(':ubl:' in k for k in live)):
+                not any(':canyon:' in k for k in live) or not any(':ubl:' in k for k in live) or
+                not any(':urbflux:' in k for k in live) or not any(':surfflux:' in k for k in live)):
             raise core.Infra('live wrappers were never called: %s' % live)
         chk.direct('C15-oracle(live float simulations)', ntot, ntot,
                    'every UCModel / ublmodel / BEMCalc call of real simulations %s wrapped from '
                    'outside: canTemp - Q/H2 within the exchanged temperatures, heat added never '
                    'below their minimum, ublTemp = mean of cells, boundary layer bounded on the '
-                   'side opposite to the source; relative tolerance 1e-9' % sorted(done),
+                   'side opposite to the source; relative tolerance 1e-9; and every urbflux / '
+                   'SurfFlux call: uExch >= 0, ustarMod >= ustar, aeroCond > 0 (road, walls, roofs, '
+                   'rural), air density > 0, canWind >= 0, canyon areas > 0, z0u / l_disp in range; '
+                   'loop bound = number of cells of the UBL object' % sorted(done),
                    mismatches=len(live_bad), branches=live)
     chk.assumptions.append(
         'C15: the three node updates are exercised through fracexec (exact rationals); the '
